@@ -598,7 +598,7 @@ fn recase(s: &str, mode: usize) -> Option<String> {
     }
 }
 
-pub const SUFFIXES: &[&str] = &["'s", "'re", "'S", "'RE", "'Re", "'rE"];
+pub const SUFFIXES: &[&str] = &["'s", "'re", "'S", "'RE", "'Re", "'rE", "(c)'s", "(c)'re", "(a\nb)'S", "(c) (d)'s"];
 
 pub fn deviations(toks: &[Tk]) -> Vec<Dev> {
     let mut v = Vec::new();
